@@ -168,11 +168,12 @@ pub struct GenOpts {
     pub deprecated: bool,   // allow items whose upper version is below `version`
     pub param_comments: bool, // comments in front of parameters (they are dropped on write: not for layout / content checks)
     pub specials: bool,     // generate A2ML blocks (grammar-based definitions) and IF_DATA blocks (conforming / unknown content)
+    pub dup_names: bool,    // now and then an identifier is repeated (same-name elements in one list are loadable)
 }
 
 impl Default for GenOpts {
     fn default() -> Self {
-        GenOpts { version: 6, max_repeat: 2, opt_prob: 30, comments: true, unicode: true, hex: true, deprecated: false, param_comments: false, specials: false }
+        GenOpts { version: 6, max_repeat: 2, opt_prob: 30, comments: true, unicode: true, hex: true, deprecated: false, param_comments: false, specials: false, dup_names: false }
     }
 }
 
@@ -189,13 +190,14 @@ pub struct DocGen<'a> {
     cur_site: String,
     /// the A2ML definition generated for the current MODULE (IF_DATA content conforms to it)
     a2ml_root: Option<crate::a2mlgen::T>,
+    recent: Vec<String>,
 }
 
 pub const VERSIONS: [(u8, &str); 6] = [(1, "1 50"), (2, "1 51"), (3, "1 60"), (4, "1 61"), (5, "1 70"), (6, "1 71")];
 
 impl<'a> DocGen<'a> {
     pub fn new(g: &'a Grammar, rng: &'a mut Rng, opts: GenOpts) -> Self {
-        DocGen { g, rng, opts, out: vec![], counter: 0, budget: 400, ascending_positions: false, pos_counter: 0, cur_site: String::new(), a2ml_root: None }
+        DocGen { g, rng, opts, out: vec![], counter: 0, budget: 400, ascending_positions: false, pos_counter: 0, cur_site: String::new(), a2ml_root: None, recent: vec![] }
     }
 
     fn push(&mut self, text: String, role: Role, depth: usize) {
@@ -207,6 +209,19 @@ impl<'a> DocGen<'a> {
 
     pub fn ident(&mut self) -> String {
         self.counter += 1;
+        if self.opts.dup_names && !self.recent.is_empty() && self.rng.chance(1, 12) {
+            let k = self.rng.below(self.recent.len());
+            return self.recent[k].clone();
+        }
+        let id = self.ident_fresh();
+        if self.recent.len() >= 6 {
+            self.recent.remove(0);
+        }
+        self.recent.push(id.clone());
+        id
+    }
+
+    fn ident_fresh(&mut self) -> String {
         if self.opts.unicode && self.rng.chance(1, 400) {
             // identifiers at the length limit (1024 bytes are allowed, 1025 are not)
             let len = [1023usize, 1024][self.rng.below(2)];
